@@ -53,7 +53,7 @@ JudgeAppend(r) ==
   ELSE ""
 
 Judge(r) == IF r.kind = "append" THEN JudgeAppend(r) ELSE JudgeRead(r)
-ASSUME TreeWellFormed /\ LayoutWellFormed /\ OrderRelationsCovered
+ASSUME TreeWellFormed /\ LayoutWellFormed /\ OrderRelationsCovered /\ SolutionRelationsRich
 Init == /\ i \in 1..Len(Recs)
         /\ why = Judge(Recs[i])
         /\ ok = (why = "")
